@@ -280,7 +280,7 @@ def hist_iset(ch):
     names.append("s0")
     pool = [0, 1, 2, 7, 8, 31, 32, 33, 62, 63, 64, 65, 127, 128, 511, 512, 513, 1000, 4096, 65535, 65536, 1114111]
     for _ in range(8 + ch.n(50)):
-        op = ch.pick(["adjoin", "adjoin", "delete", "union", "intersection", "difference", "contains", "size", "list", "range", "old", "rank", "fold", "adjoin!", "eq"])
+        op = ch.pick(["adjoin", "adjoin", "delete", "union", "intersection", "difference", "contains", "size", "list", "range", "old", "rank", "fold", "adjoin!", "eq", "mrange", "mrange", "mdiff", "mdiff"])
         a = ch.pick(names)
         if op in ("adjoin", "delete", "adjoin!"):
             x = ch.pick(pool) if ch.p(0.7) else ch.n(300)
@@ -311,6 +311,22 @@ def hist_iset(ch):
             vers[new] = vers[a] | set(range(lo, lo + n))
             names.append(new)
             h.updates += 1
+        elif op in ("mrange", "mdiff"):
+            # pure range nodes (make-iset lo hi) joined to / cut out of a set: boundaries touch existing nodes
+            base = ch.pick(sorted(vers[a])) if vers[a] and ch.p(0.6) else ch.pick(pool)
+            lo = max(0, base + ch.n(5) - 2)
+            hi = lo + ch.pick([0, 0, 1, 2, 40, 300])
+            new = "s%d" % len(names)
+            if op == "mrange":
+                h.lines.append("(define %s (iset-union %s (make-iset %d %d)))" % (new, a, lo, hi))
+                vers[new] = vers[a] | set(range(lo, hi + 1))
+            else:
+                h.lines.append("(define %s (iset-difference %s (make-iset %d %d)))" % (new, a, lo, hi))
+                vers[new] = vers[a] - set(range(lo, hi + 1))
+            names.append(new)
+            h.updates += 1
+            h.emit("(map (lambda (i) (iset-contains? %s i)) '(%s))" % (new, " ".join(str(x) for x in range(max(0, lo - 1), min(hi, lo + 3) + 2))),
+                   sc([x in vers[new] for x in range(max(0, lo - 1), min(hi, lo + 3) + 2)]))
         elif op == "contains":
             x = ch.pick(pool)
             h.emit("(iset-contains? %s %d)" % (a, x), sc(x in vers[a]))
@@ -334,6 +350,9 @@ def hist_iset(ch):
             if vers[a]:
                 x = sorted(vers[a])[ch.n(len(vers[a]))]
                 h.emit("(iset-rank %s %d)" % (a, x), str(sorted(vers[a]).index(x)))
+    for nm in names[-3:]:
+        if len(vers[nm]) <= 3000:
+            h.emit("(list (iset-size %s) (iset->list %s))" % (nm, nm), sc([len(vers[nm]), sorted(vers[nm])]))
     return h
 
 
